@@ -26,6 +26,7 @@ from typing import Dict, List, Optional, Tuple
 from . import core
 
 SEEDED = core.VERIF / "seeded"
+REFACTORS = core.VERIF / "refactors"
 
 
 # ---------------------------------------------------------------------------
@@ -160,6 +161,11 @@ def _run_variant(args) -> dict:
     try:
         if kind == "twin":
             make_twin(Path(repo), tmp, name)
+        elif kind == "refactor":
+            shutil.copytree(Path(repo) / "coco", tmp / "coco", ignore=shutil.ignore_patterns("__pycache__", "*.pyc"))
+            pr = subprocess.run(["patch", "-p1", "-s", "-d", str(tmp), "-i", str(REFACTORS / name / "patch.diff")], capture_output=True, text=True)
+            if pr.returncode != 0:
+                return {"kind": kind, "name": name, "skipped": "patch does not apply to the current tree: " + (pr.stdout + pr.stderr)[-200:]}
         else:
             shutil.copytree(Path(repo) / "coco", tmp / "coco", ignore=shutil.ignore_patterns("__pycache__", "*.pyc"))
             patch = SEEDED / name / "patch.diff"
@@ -201,8 +207,28 @@ def seeds_for(pid: str) -> List[str]:
     return out
 
 
+def refactors() -> Dict[str, bool]:
+    """Confirmed behaviour-preserving refactorings written by independent sub-agents: name -> must the analysis also
+    stay free of ANALYSIS-ERRORs (True), or is `cannot decide` the recorded, accepted outcome (False)."""
+    out: Dict[str, bool] = {}
+    if not REFACTORS.is_dir():
+        return out
+    for d in sorted(REFACTORS.iterdir()):
+        mf = d / "meta.json"
+        if not mf.exists() or not (d / "patch.diff").exists():
+            continue
+        try:
+            m = json.loads(mf.read_text())
+        except Exception:
+            continue
+        if m.get("confirmed"):
+            out[d.name] = not m.get("analysis_errors")
+    return out
+
+
 def run_selftest(ctx: core.Ctx, pid: str) -> Tuple[int, dict]:
-    tasks = [("twin", k, pid, str(ctx.repo)) for k in TWINS] + [("seed", s, pid, str(ctx.repo)) for s in seeds_for(pid)]
+    refs = refactors()
+    tasks = [("twin", k, pid, str(ctx.repo)) for k in TWINS] + [("refactor", k, pid, str(ctx.repo)) for k in refs] + [("seed", s, pid, str(ctx.repo)) for s in seeds_for(pid)]
     workers = min(16, max(1, len(tasks)))
     with ProcessPoolExecutor(max_workers=workers) as ex:
         results = list(ex.map(_run_variant, tasks))
@@ -216,6 +242,13 @@ def run_selftest(ctx: core.Ctx, pid: str) -> Tuple[int, dict]:
         if "skipped" in r:
             summary["skipped"].append({r["name"]: r["skipped"]})
             continue
+        if r["kind"] == "refactor":
+            strict = refs.get(r["name"], True)
+            summary.setdefault("refactorings", {})[r["name"]] = {"alarms": r["new"], "errors": len(r["errors"]), "errors_accepted": not strict}
+            if r["new"] or (r["errors"] and strict):
+                print(f"ANALYSIS-ERROR selftest refactor:{r['name']}: a behaviour-preserving refactoring raises {r['new'] or r['errors'][:2]} for {pid}")
+                status = 2
+            continue
         if r["kind"] == "twin":
             summary["twins"][r["name"]] = {"instances": r["instances"], "alarms": r["new"], "errors": r["errors"]}
             if r["new"] or r["errors"]:
@@ -226,6 +259,6 @@ def run_selftest(ctx: core.Ctx, pid: str) -> Tuple[int, dict]:
             if not r["new"]:
                 print(f"ANALYSIS-ERROR selftest seed:{r['name']}: the seeded fault is no longer reported for {pid}")
                 status = 2
-    n_t, n_s = len(summary["twins"]), len(summary["seeds"])
-    print(f"selftest {pid}: {n_t} behaviour-preserving twins silent, {n_s} seeded faults detected, {len(summary['skipped'])} skipped" if status == 0 else f"selftest {pid}: FAILED")
+    n_t, n_s, n_r = len(summary["twins"]), len(summary["seeds"]), len(summary.get("refactorings", {}))
+    print(f"selftest {pid}: {n_t} generated twins and {n_r} independent refactorings silent, {n_s} seeded faults detected, {len(summary['skipped'])} skipped" if status == 0 else f"selftest {pid}: FAILED")
     return status, summary
